@@ -1,14 +1,14 @@
 INIT Init
 NEXT Next
 CONSTANTS
-  Kinds = {"bool", "flag", "int", "list", "paths", "files"}
-  MaxFiles = 2
+  Kinds = {"int"}
+  MaxFiles = 3
   Rich = FALSE
   WithBad = TRUE
-  Routes = {"kwargs", "argv"}
-  Layouts = {"flat", "nested"}
+  Routes = {"inst"}
+  Layouts = {"flat"}
   Slim = TRUE
-  Spells = {"same"}
+  Spells = {"same", "dot", "up", "abs", "redundant", "symlink"}
   HistKinds = {}
   MaxLookups = 0
 INVARIANT LayeringFollowsDocs
